@@ -28,9 +28,11 @@ CONSTANTS MaxCandidates,   \* 100
 VARIABLES text,     \* [path |-> [file |-> buffer]]  (functions as records keyed by strings)
           starts,   \* same shape: LineStarts of each buffer (derived, cached)
           fp,       \* fingerprint of caller-supplied data; "" = not observed yet
-          memo      \* [key |-> digest]
+          memo,     \* [key |-> digest]
+          edit      \* the last text-moving edit: [p, f, at, dl, db] or NoEdit (C18)
 
-svars == <<text, starts, fp, memo>>
+svars == <<text, starts, fp, memo, edit>>
+NoEdit == [p |-> "", f |-> "", at |-> 0, dl |-> 0, db |-> 0]
 
 Has(f, x) == x \in DOMAIN f
 Put(f, x, v) == [y \in DOMAIN f \cup {x} |-> IF y = x THEN v ELSE f[y]]
@@ -42,6 +44,7 @@ SInit ==
   /\ starts = EmptyFn
   /\ fp = ""
   /\ memo = EmptyFn
+  /\ edit = NoEdit
 
 \* ---- state-changing steps (done by the client / caller) ------------------
 Load(p, f, buf, parsed) ==
@@ -51,22 +54,39 @@ Load(p, f, buf, parsed) ==
       /\ starts' = Put(starts, p, IF parsed THEN Put(sp, f, LineStarts(buf)) ELSE Drop(sp, f))
       /\ fp' = ""            \* the caller changed its own data
       /\ memo' = EmptyFn     \* keys are per context version
+      /\ edit' = NoEdit
 
 Collect(p, newfp) ==
   /\ fp' = newfp             \* storing new targets/origins is the caller's doing
   /\ memo' = EmptyFn
-  /\ UNCHANGED <<text, starts>>
+  /\ UNCHANGED <<text, starts, edit>>
+
+\* The client inserts whole lines `ins` before line `at` of file f (blank or comment lines
+\* placed before a top-level item): the only thing that changes is where the text is.
+InsertLinesAt(p, f, at, ins) ==
+  LET new == InsertLines(text[p][f], at, ins) IN
+  /\ Has(text, p) /\ Has(text[p], f) /\ at \in 1..Len(text[p][f])
+  /\ text'   = Put(text, p, Put(text[p], f, new))
+  /\ starts' = Put(starts, p, Put(starts[p], f, LineStarts(new)))
+  /\ edit' = [p |-> p, f |-> f, at |-> at, dl |-> Len(ins), db |-> InsBytes(ins)]
+  /\ fp' = "" /\ memo' = EmptyFn
+
+\* C18: a position reported before the edit and the corresponding one reported after it
+\* pr = <<b, l, c, b2, l2, c2>>
+MovedOK(pr) == ShiftPos(<<>>, edit.at, edit.dl, edit.db, pr[1], pr[2], pr[3]) = <<pr[4], pr[5], pr[6]>>
+BadMoves(obs) == {i \in DOMAIN obs.pairs : ~MovedOK(obs.pairs[i])}
 
 \* ---- predicates on a query observation ------------------------------------
 Statuses == {"ok", "error"}
 
 Total(obs) == \A s \in DOMAIN obs.hist : obs.hist[s] > 0 => s \in Statuses
 
-RangeOK(p, r) ==
-  /\ Has(text, p) /\ Has(text[p], r[1])
-  /\ WFRangeIn(text[p][r[1]], starts[p][r[1]], r)
+\* r = <<file, sb, sl, sc, eb, el, ec, tag, path>> : the path the range is reported for
+RangeOK(r) ==
+  /\ Has(text, r[9]) /\ Has(text[r[9]], r[1])
+  /\ WFRangeIn(text[r[9]][r[1]], starts[r[9]][r[1]], r)
 
-BadRanges(p, obs) == {i \in DOMAIN obs.rs : ~RangeOK(p, obs.rs[i])}
+BadRanges(obs) == {i \in DOMAIN obs.rs : ~RangeOK(obs.rs[i])}
 
 \* completion edits: <<startByte, endByte, cursorByte>> in file f
 EditOK(p, f, e) ==
@@ -118,12 +138,12 @@ Query(k, p, f, obs) ==
   /\ Total(obs)
   /\ FrameOK(obs)
   /\ fp' = IF obs.fp # "" /\ fp = "" THEN obs.fp ELSE fp
-  /\ UNCHANGED <<text, starts, memo>>
+  /\ UNCHANGED <<text, starts, memo, edit>>
 
 \* C03: a (key, digest) report is consistent with what was seen before for that key
 Det(key, dg) ==
   /\ Has(memo, key) => memo[key] = dg
   /\ memo' = Put(memo, key, dg)
-  /\ UNCHANGED <<text, starts, fp>>
+  /\ UNCHANGED <<text, starts, fp, edit>>
 
 =============================================================================
